@@ -7,7 +7,41 @@ Spec (C06): every value supplied to the builder is returned by the matching acce
 namespace RpmVerif.Driver.C06
 open RpmVerif.Hdr RpmVerif.Bld RpmVerif.Driver RpmVerif.Driver.Bld
 
-def ops : List String := ["build"]
+def ops : List String := ["build", "dep", "depctors"]
+
+/-! ### `dep CTOR KIND NAME VERSION`: one of the public `Dependency` constructors (identified by its Rust name), the
+dependency added to a small package through the builder method KIND, built, written, re-parsed and read back.
+Observation `ctor=<name>,<flags>,<version> back=<name>,<flags>,<version>` (hex / decimal; `back` = first item of the
+matching accessor). Model: `Bld.depCtor` over the table scraped from the source (`Gen.depCtors`); the read-back half is
+`C06.dep_ctor_flags_readback`. Spec (C06): what was constructed is what is read back.
+`depctors`: the constructor names the harness can call vs. the names in the scraped table (a constructor added to the
+source must be added to the harness). -/
+def depTriple (d : Dep) : String := s!"{C05.hx d.name},{d.flags},{C05.hx d.version}"
+
+def depKinds : List String := ["prov", "req", "conf", "obs", "rec", "sug", "enh", "sup"]
+
+def depHandle (op : String) (args : List String) (impl : String) : String :=
+  if op == "depctors" then
+    answer (",".intercalate RpmVerif.Gen.depCtorNames) (verdictOf (impl == ",".intercalate RpmVerif.Gen.depCtorNames)) "ctor-names"
+  else
+  match args with
+  | [ctor, kind, nh, vh] =>
+    match RpmVerif.Gen.depCtorNames.idxOf? ctor, bytesOfHex nh, bytesOfHex vh with
+    | some k, some name, some version =>
+      if !depKinds.contains kind then badReq "kind" else
+      match depCtor k name version with
+      | some d =>
+        let t := depTriple d
+        let toks := (impl.splitOn " ").filter (· ≠ "")
+        let v := match toks with
+          | [c, b] => if c.startsWith "ctor=" && b.startsWith "back=" then
+                verdictOf ((c.drop 5).toString == (b.drop 5).toString) else "fails:malformed-observation"
+          | _ => "fails:malformed-observation"
+        answer s!"ctor={t} back={t}" v s!"ctor-{ctor}-{kind}"
+      | none => badReq "ctor-index"
+    | none, _, _ => answer "unknown-ctor" "dontcare" "ctor-not-in-table"
+    | _, _, _ => badReq "hex"
+  | _ => badReq "args"
 
 def tokenMap (dump : String) : List (String × String) :=
   ((dump.splitOn " ").filter (· ≠ "")).filterMap fun t =>
@@ -104,7 +138,8 @@ def firstViolation (r : Req) (m : List (String × String)) : Option String :=
         | _ => some "file-entry-shape"
   (v1.orElse fun _ => v2).orElse fun _ => (v3.orElse fun _ => v4).orElse fun _ => files r.files []
 
-def handle (_op : String) (args : List String) (impl : String) : String :=
+def handle (op : String) (args : List String) (impl : String) : String :=
+  if op == "dep" || op == "depctors" then depHandle op args impl else
   match parseReq args with
   | none => badReq "cfg"
   | some r =>
